@@ -670,6 +670,9 @@ class DiscreteFourierTransformInverse(DiscreteFourierTransformBase):
         effort = flags[0] if flags else 'measure'
 
         direction = 'forward' if self.sign == '-' else 'backward'
+        if self.halfcomplex and x.ndim > 1:
+            # FFTW destroys the input of multi-dimensional C2R transforms
+            x = x.copy()
         self._fftw_plan = pyfftw_call(
             x, out, direction=direction, axes=self.axes,
             halfcomplex=self.halfcomplex, planning_effort=effort,
